@@ -37,6 +37,9 @@ def gen(rng, tier, profile, count):
         elif profile in ("c17", "c09") and q < 0.16:
             snv = nv + 1
         c.set("num_vars", nv).set("supported", snv).set("seed", rng.randrange(2 ** 63))
+        if profile == "c12":
+            c.set("c12", 1)
+            c.meta["scheme"] = "mlpc"
         n = rng.randint(1, 3) if nv <= 8 else 1
         c.set("n", n)
         shapes = []
